@@ -18,13 +18,16 @@ Cfg(how, level, t, cn, rd, st, ot, al, fl, ros, resp, fa, bm, ji, meth, route, k
 (* Configuration families.  They are enumerated by Init (streaming), never built as one set,    *)
 (* because TLC evaluates zero-arity constant definitions eagerly.  The small domains come from   *)
 (* the cfg file: DT (total), DCR (connect, read), DSO (status, other), DFlag (BOOLEAN or {TRUE}). *)
-CONSTANTS Family, DT, DCR, DSO, DFlag, DRoutes
+CONSTANTS Family, DT, DCR, DSO, DFlag, DRoutes, OnlyBounded
 TQuick    == {NoneV, FalseV, 0, 1}
 TFull     == {NoneV, FalseV, 0, 1, 2}
 CRQuick   == {NoneV, FalseV, 0, 1}
 CRFull    == {NoneV, FalseV, 0, 1, 2}
 SOQuick   == {NoneV, 0, 1}
 SOFull    == {NoneV, 0, 1, 2}
+CRSmall   == {NoneV, FalseV, 0, 1}
+CRTiny    == {NoneV, FalseV, 0}
+SOSmall   == {NoneV, 1}
 JustTrue  == {TRUE}
 RDirect   == {"direct"}
 RForward  == {"forward"}
@@ -64,17 +67,19 @@ FamSmall   == {"backoff", "forms", "tunnel"}
 FamForward == {"budgets", "forms"}
 
 MCInit == /\ InFamily(cfg)
+          /\ OnlyBounded => Bounded(cfg)          \* liveness runs: policies whose total is not None
           /\ m = M0 /\ trail = <<>> /\ evs = <<>> /\ ob = Ob0
 MCSpec == MCInit /\ [][Next]_vars /\ WF_vars(Next)
-\* only the forwarding route (runs with the D2 deviation enabled) / only bounded policies (liveness)
-ForwardOnly == cfg.route = "forward"
-BoundedOnly == Bounded(cfg)
 NoCfgs == {}
 
 OutcomesPlain == AllOutcomes \ {"TunRefused"}
 OutcomesAll   == AllOutcomes
 \* one representative per class the Model / the monitor distinguish (quick stage 1)
 OutcomesCore  == {"ConnRefused", "SendErr", "ReadTimeout", "ReadEOF", "OK200", "S500", "S429RA", "S404RA", "TunRefused"}
+OutcomesTiny  == {"ConnRefused", "ReadEOF", "ReadReset", "OK200", "S500", "S429RA", "S404RA", "TunRefused"}
+\* what stage 2 enumerates in the quick tier (the property's list; TunRefused only applies to the tunnel route)
+OutcomesEmit  == {"ConnRefused", "SendErr", "ReadTimeout", "ReadReset", "ReadEOF", "ReadGarbage", "OK200", "S500",
+                  "S429RA", "S503RA", "S413RA", "S404RA", "TunRefused"}
 
 NoDefects == {}
 DefectD2  == {"D2"}
